@@ -30,23 +30,20 @@ func (fr *Frame) intrinsic(st *State, site ssa.Instruction, full string, fn *ssa
 	addw := func(w int) Value {
 		x, y, c := T(0), T(1), T(2)
 		fr.carryCheck(st, c, full)
-		s := F.Add(x, y, c)
-		m := F.Int(pow2(w))
-		ov := F.Le(m, s)
-		return tuple(F.Ite(ov, F.Sub(s, m), s), F.Ite(ov, F.I64(1), F.I64(0)))
+		lo, hi := F.SplitWord(F.Add(x, y, c), w, 1, "add")
+		return tuple(lo, hi)
 	}
 	subw := func(w int) Value {
 		x, y, b := T(0), T(1), T(2)
 		fr.carryCheck(st, b, full)
-		d := F.Sub(x, F.Add(y, b))
+		// x - y - b = diff - W*borrow   <=>   x - y - b + W = diff + W*(1-borrow)
 		m := F.Int(pow2(w))
-		neg := F.Lt(d, F.I64(0))
-		return tuple(F.Ite(neg, F.Add(d, m), d), F.Ite(neg, F.I64(1), F.I64(0)))
+		lo, hi := F.SplitWord(F.Add(F.Sub(x, F.Add(y, b)), m), w, 1, "sub")
+		return tuple(lo, F.Sub(F.I64(1), hi))
 	}
 	mulw := func(w int) Value {
-		p := F.Mul(T(0), T(1))
-		m := F.Int(pow2(w))
-		return tuple(F.Div(p, m), F.Mod(p, m))
+		lo, hi := F.SplitWord(F.Mul(T(0), T(1)), w, w, "mul")
+		return tuple(hi, lo)
 	}
 	switch full {
 	case "math/bits.Add64", "math/bits.Add":
